@@ -36,6 +36,8 @@ structure Obs where
   deriving Repr
 
 def Obs.ran (o : Obs) : Bool := o.runs > 0
+/-- ResourceManager: this call's `create` ran and succeeded (scripted: no error, no panic). -/
+def Obs.created (o : Obs) : Bool := o.runs > 0 && !o.serr && !o.spanic
 
 /-- executions of two different calls on the same key must not overlap. -/
 def overlapping (a b : Obs) : Bool :=
@@ -118,7 +120,7 @@ def lcViolations (h : List Obs) : List (Nat × String) :=
 
 /-- ResourceManager: `serr` = scripted failure of `create`; a successful `create` returns the call's id as instance. -/
 def rmCallViolation (inj : List (Nat × Nat)) (h : List Obs) (r : Obs) : Option String :=
-  let created := h.filter fun c => c.key = r.key && c.ran && !c.serr
+  let created := h.filter fun c => c.key = r.key && c.created
   match inj.lookup r.key with
   | some n =>
     -- the key was pre-registered with instance `n` (Inject before any call): everyone gets that one, create never runs
@@ -132,25 +134,33 @@ def rmCallViolation (inj : List (Nat × Nat)) (h : List Obs) (r : Obs) : Option 
   | none, some e =>
     match h.find? (·.id = e) with
     | some l =>
-      if l.key = r.key && l.ran && l.serr && (l.id = r.id || callsOverlap l r) then none
+      if l.key = r.key && l.ran && l.serr && !l.spanic && (l.id = r.id || callsOverlap l r) then none
       else some s!"rm-error: call {r.id} (key {r.key}) got the error of create {e} which it may not get"
     | none => some s!"rm-error: call {r.id} got an unknown error {e}"
   | _, _ => some s!"rm: call {r.id} returned neither exactly an instance nor exactly an error"
 
 def rmKeyViolations (h : List Obs) : List (Nat × String) :=
   h.filterMap fun c =>
-    if c.ran && !c.serr then
-      match h.find? (fun d => d.key = c.key && d.ran && !d.serr && d.id < c.id) with
+    if c.created then
+      match h.find? (fun d => d.key = c.key && d.created && d.id < c.id) with
       | some d => some (c.line, s!"rm-create-once: key {c.key} created successfully by call {d.id} and again by call {c.id}")
       | none => none
     else none
 
+/-- ResourceManager: a call may panic with its own `create`'s panic, or as a joiner of a flight whose `create`
+panicked (`val.(io.Closer)` on the nil result; what the code does, see `rm_panic_cleanup`). -/
+def rmPanicViolation (h : List Obs) (r : Obs) : Option String :=
+  if !r.panicked then none
+  else if r.ran && r.spanic then none
+  else if !r.ran && h.any (fun l => l.key = r.key && l.ran && l.spanic && l.id ≠ r.id && callsOverlap l r) then none
+  else some s!"panic: call {r.id} on key {r.key} panicked although neither its own create nor the create of a flight it could join did"
+
 def rmViolations (inj : List (Nat × Nat)) (h : List Obs) : List (Nat × String) :=
   exclusiveViolations h
   ++ rmKeyViolations h
-  ++ h.filterMap (fun r => (rmCallViolation inj h r).map (r.line, ·))
+  ++ h.filterMap (fun r => if r.panicked then none else (rmCallViolation inj h r).map (r.line, ·))
   ++ h.filterMap (fun r => if r.runs > 1 then some (r.line, s!"rm: create of call {r.id} executed {r.runs} times") else none)
   ++ h.filterMap (fun r => (stuckViolation r).map (r.line, ·))
-  ++ h.filterMap (fun r => (panicViolation r).map (r.line, ·))
+  ++ h.filterMap (fun r => (rmPanicViolation h r).map (r.line, ·))
 
 end GoZero.C07.Spec
